@@ -344,7 +344,7 @@ func (m *monC18) Step(f *Flow) {
 			continue
 		}
 		if c.ConnackStep != 0 && len(c.Sent) > 0 && c.Sent[0].Type == CONNACK && c.Sent[0].RC != 0 {
-			if c.closedLocal {
+			if c.ClosedLive {
 				m.checked[-1-c.id] = true
 				w.Probe("refused_connack_closed")
 				m.refused = append(m.refused, c)
